@@ -625,6 +625,7 @@ func (c *Check) finalize(p *partial, nts map[uint64]struct{}) {
 	exit := 0
 	var vlist []any
 	out := bufio.NewWriter(os.Stdout)
+	kfSeen := map[string]bool{}
 	for _, k := range keys {
 		v := p.Viol[k]
 		var kf *Finding
@@ -634,7 +635,11 @@ func (c *Check) finalize(p *partial, nts map[uint64]struct{}) {
 			}
 		}
 		if kf != nil {
-			fmt.Fprintf(out, "KNOWN-FINDING: property=%s %s [%s] (%d cases, e.g. %s)\n", c.ID, kf.What, v.Key, v.Count, v.CaseID)
+			// one line per listed finding: the first matching key prints it, further keys of the same entry are counted
+			if !kfSeen[kf.Key] {
+				kfSeen[kf.Key] = true
+				fmt.Fprintf(out, "KNOWN-FINDING: property=%s %s [%s] (%d cases, e.g. %s)\n", c.ID, kf.What, v.Key, v.Count, v.CaseID)
+			}
 			vlist = append(vlist, map[string]any{"key": k, "known_finding": true, "cases": v.Count})
 			continue
 		}
